@@ -3,6 +3,10 @@ from pyvc.api import clause, contract, implies, old, opaque
 import griffe  # noqa: F401
 import safeds_stubgen.api_analyzer._types as sds_types  # noqa: F401
 from safeds_stubgen.docstring_parsing._docstring_parser import DocstringParser  # noqa: F401
+import pathlib  # noqa: F401
+from safeds_stubgen.stubs_generator._helper import NamingConvention  # noqa: F401
+from safeds_stubgen.api_analyzer import TypeSourcePreference, TypeSourceWarning  # noqa: F401
+from safeds_stubgen.docstring_parsing import DocstringStyle  # noqa: F401
 from specs.helper import CONV, ESC
 from safeds_stubgen._helpers import is_internal  # noqa: F401
 
@@ -349,3 +353,118 @@ class has_node_shorter_reexport:
 
     def ensures_decision(self, node, result):
         return result == any(SEGS(m.id) < SEGS(old(self._get_module_id())) for m in node.reexported_by)
+
+
+# ---------------------------------------------------------------------------------------------- placeholder stubs of other libraries (C16, C10, C11)
+def PLACEHOLDER_CLASS(class_name, nc):
+    conv = CONV(class_name, nc, True)
+    ann = ('\n@PythonName("' + class_name + '")') if class_name != conv else ""
+    return ann + "\nclass " + ESC(conv) + "\n"
+
+
+def PLACEHOLDER_HEADER(python_module_path, nc):
+    conv = CONV(python_module_path, nc, False)
+    return (('@PythonModule("' + python_module_path + '")\n') if python_module_path != conv else "") + "package " + conv + "\n"
+
+
+@contract(_GS + "_create_outside_package_class", props=["C16", "C10", "C11", "C02"])
+class create_outside_package_class:
+    """Placeholder stub of a class of another library. The external calls of the activation are kept in the ghost
+    log EXT (qualified name, arguments, result), so the contract can state *where* and *how* the file is written:
+    directory = out_path / module path, file = <last module segment>.sdsstub; the file is appended to exactly when it
+    exists and this run has already created it, otherwise (re)written with the package header; the module path is
+    registered as created."""
+    params = {"class_path": "str", "out_path": "pathlib.Path", "naming_convention": "NamingConvention",
+              "created_module_paths": "set[str]"}
+    ghost = ["EXT"]
+    modifies = ["created_module_paths"]
+    safety = False
+
+    def requires(class_path, out_path, naming_convention, created_module_paths):
+        return len(class_path.split(".")) >= 2
+
+    def ensures_calls(class_path, out_path, naming_convention, created_module_paths, result):
+        return len(EXT) == 8 and EXT[0][0] == "pathlib.Path.__truediv__" and EXT[2][0] == "pathlib.Path.mkdir" \
+            and EXT[5][0] == "pathlib.Path.exists" and EXT[6][0] == "pathlib.Path.open"
+
+    def ensures_layout(class_path, out_path, naming_convention, created_module_paths, result):
+        parts = class_path.split(".")
+        return EXT[0][1] == out_path and EXT[0][2] == "/".join(parts[:-1]) \
+            and EXT[3][2] == parts[-2] + ".sdsstub" and EXT[6][1] == EXT[5][1]
+
+    def ensures_rewrite_unless_created_in_this_run(class_path, out_path, naming_convention, created_module_paths, result):
+        module_path = "/".join(class_path.split(".")[:-1])
+        append = EXT[5][2] is True and module_path in old(created_module_paths)
+        return EXT[6][2] == ("a" if append else "w")
+
+    def ensures_text(class_path, out_path, naming_convention, created_module_paths, result):
+        parts = class_path.split(".")
+        cls_text = PLACEHOLDER_CLASS(parts[-1], naming_convention)
+        return EXT[7][2] == (cls_text if EXT[6][2] == "a" else PLACEHOLDER_HEADER(".".join(parts[:-1]), naming_convention) + cls_text)
+
+    def ensures_registered(class_path, out_path, naming_convention, created_module_paths, result):
+        module_path = "/".join(class_path.split(".")[:-1])
+        return result == old(created_module_paths) | {module_path}
+
+
+# ---------------------------------------------------------------------------------------------- the run: option wiring and output location (C10, C15)
+_CLI = "safeds_stubgen.api_analyzer.cli._cli:"
+
+
+@contract("safeds_stubgen.api_analyzer._get_api:get_api", props=["C15"], verify=False)
+class get_api_assumed:
+    """Assumed here (its clauses are the bounded contract get_api_c): an API model, no effect on the caller's objects."""
+    modifies = []
+
+
+@contract("safeds_stubgen.api_analyzer._api:API.to_json_file", props=["C10"], verify=False)
+class to_json_file_assumed:
+    modifies = []
+
+
+@contract(_GS + "generate_stub_data", props=["C10"], verify=False)
+class generate_stub_data_assumed:
+    modifies = ["stubs_generator.*"]
+
+
+@contract(_GS + "create_stub_files", props=["C10"], verify=False)
+class create_stub_files_assumed:
+    modifies = ["stubs_generator.*"]
+
+
+@contract(_CLI + "_run_stub_generator", props=["C10", "C15", "C14"])
+class run_stub_generator_wiring:
+    """The options reach the analyser unchanged (C15: the test-run flag; C14: preference and warning setting), the
+    inventory is written to <out>/<source directory name>__api.json and every later step works on the requested
+    output directory (C10). Calls are observed through the ghost call log EXT."""
+    params = {"src_dir_path": "pathlib.Path", "out_dir_path": "pathlib.Path", "docstring_style": "DocstringStyle",
+              "is_test_run": "bool", "convert_identifiers": "bool", "type_source_preference": "TypeSourcePreference",
+              "type_source_warning": "TypeSourceWarning"}
+    ghost = ["EXT"]
+    modifies = []
+    safety = False
+
+    def ensures_calls(src_dir_path, out_dir_path, docstring_style, is_test_run, convert_identifiers,
+                      type_source_preference, type_source_warning, result):
+        return len(EXT) == 5 and EXT[0][0] == "get_api" and EXT[1][0] == "pathlib.PurePath.joinpath" \
+            and EXT[2][0] == "API.to_json_file" and EXT[3][0] == "generate_stub_data" and EXT[4][0] == "create_stub_files"
+
+    @clause(props=["C15", "C14"])
+    def ensures_options_reach_the_analyser(src_dir_path, out_dir_path, docstring_style, is_test_run, convert_identifiers,
+                                           type_source_preference, type_source_warning, result):
+        return EXT[0][1] == src_dir_path and EXT[0][2] == docstring_style and EXT[0][3] == is_test_run \
+            and EXT[0][4] == type_source_preference and EXT[0][5] == type_source_warning
+
+    @clause(props=["C10"])
+    def ensures_inventory_file(src_dir_path, out_dir_path, docstring_style, is_test_run, convert_identifiers,
+                               type_source_preference, type_source_warning, result):
+        return EXT[1][1] == out_dir_path and EXT[1][2] == src_dir_path.stem + "__api.json" \
+            and EXT[2][1] == EXT[0][6] and EXT[2][2] == EXT[1][3]
+
+    @clause(props=["C10", "C09"])
+    def ensures_generation_on_the_requested_directory(src_dir_path, out_dir_path, docstring_style, is_test_run,
+                                                      convert_identifiers, type_source_preference, type_source_warning, result):
+        gen = EXT[3][1]
+        return EXT[3][2] == out_dir_path and EXT[4][3] == out_dir_path and EXT[4][1] == gen and EXT[4][2] == EXT[3][3] \
+            and gen.api == EXT[0][6] \
+            and gen.naming_convention == (NamingConvention.SAFE_DS if convert_identifiers else NamingConvention.PYTHON)
